@@ -22,7 +22,7 @@ floors = json.load(open("/verif/floors.json"))
 for it, r in zip(items, res):
     iid, status, keys = r[0], r[1], r[2]
     counts = r[3] if len(r) > 3 else None
-    if counts is not None and it["kind"].startswith("benign") and status == "analysed":   # floors describe the current tree only
+    if counts is not None and (it["kind"].startswith("benign") or it["kind"].endswith("-unsupported")) and status == "analysed":   # floors describe the current tree only
         low = sorted(ru for ru in props.RULE_TEXT if selftest.below_floor(counts, floors, ru))
         if low:
             status = "below-floor:" + ",".join(low)
@@ -45,7 +45,8 @@ cat = json.load(open("/verif/mutants/catalogue.json"))
 bad = 0
 for iid, kind, status, rules, pids, edit, exp in rows:
     if kind.endswith("-unsupported"):
-        if pids or status != "inconclusive":
+        # (a lost anchor -- a rule below its floor -- is the check's exit 2 as well)
+        if pids or not (status == "inconclusive" or status.startswith("below-floor:")):
             print("UNSUPPORTED VARIANT NOT INCONCLUSIVE", iid, status, rules, pids, file=sys.stderr); bad += 1
         continue
     if kind.startswith("benign") and (pids or not status.startswith("analysed")):
